@@ -256,7 +256,12 @@ def attributable(prop, ob, chk, tags):
     if tags:
         return prop in tags
     if prop == "C02":
-        return cat in MEMSAFE_CLASSES
+        desc = chk.get("description", "") or ""
+        # preconditions of unchecked accesses (get_unchecked, from_raw_parts, ptr::add ...) are asserted by Kani as
+        # "Rust intrinsic assumption failed" / "unsafe precondition(s) violated": violating them is the memory-safety
+        # defect itself (the later pointer_dereference check is cut off by the assume that follows the assert)
+        return (cat in MEMSAFE_CLASSES or "Rust intrinsic assumption failed" in desc
+                or "unsafe precondition" in desc or "undefined behavior" in desc.lower())
     return True
 
 
@@ -301,13 +306,9 @@ def match_finding(findings, prop, ob_id, chk):
 # --------------------------------------------------------------------------------------------
 
 def extract_playback_tests(stdout):
-    tests = []
-    for m in re.finditer(r"```\n(.*?)```", stdout, re.S):
-        body = m.group(1)
-        if "kani::concrete_playback_run" in body and "#[test]" in body:
-            # drop the generated doc comment: multi-line check descriptions break it
-            tests.append(body[body.index("#[test]"):])
-    return tests
+    """The generated unit tests, without their doc comments (multi-line check descriptions break those). Matching on the
+    test function itself rather than on the ``` fences: compiler output may contain stray fences."""
+    return [m.group(0) for m in re.finditer(r"#\[test\]\nfn kani_concrete_playback_\w+\(\) \{\n.*?\n\}\n", stdout, re.S)]
 
 
 def run_playback(scratch, ob, tests):
